@@ -519,6 +519,10 @@ impl<T, R> RequestMessageDecoder<T, R> {
 
 const HEADER_INIT_LEN: usize = 32;
 
+/// The most buffer space that is reserved ahead of time on the strength of the lengths in a frame
+/// header (a corrupt length must not cause an enormous allocation).
+const MAX_RESERVE: usize = 1 << 16;
+
 /// Error type for the protocol decoders.
 #[derive(Error, Debug)]
 pub enum MessageDecodeError {
@@ -576,7 +580,7 @@ where
                     let body_len_and_tag = header.get_u64();
                     let tag = (body_len_and_tag & OP_MASK) >> OP_SHIFT;
                     if src.remaining() < HEADER_INIT_LEN + node_len + lane_len {
-                        src.reserve(node_len + lane_len);
+                        src.reserve((node_len + lane_len).min(MAX_RESERVE));
                         break Ok(None);
                     }
                     src.advance(HEADER_INIT_LEN);
@@ -731,7 +735,7 @@ impl Decoder for RawResponseMessageDecoder {
         let body_len = (body_len_and_tag & !OP_MASK) as usize;
         let required = HEADER_INIT_LEN + node_len + lane_len + body_len;
         if src.remaining() < required {
-            src.reserve(required - src.remaining());
+            src.reserve((required - src.remaining()).min(MAX_RESERVE));
             return Ok(None);
         }
         src.advance(HEADER_INIT_LEN);
@@ -782,7 +786,7 @@ impl Decoder for RawRequestMessageDecoder {
         let body_len = (body_len_and_tag & !OP_MASK) as usize;
         let required = HEADER_INIT_LEN + node_len + lane_len + body_len;
         if src.remaining() < required {
-            src.reserve(required);
+            src.reserve(required.min(MAX_RESERVE));
             return Ok(None);
         }
         src.advance(HEADER_INIT_LEN);
